@@ -767,7 +767,20 @@ func (ex *Exec) binop(st *State, op token.Token, xv, yv Val, xt, rt types.Type, 
 	case KIface:
 		a := ex.coerce(xv, xt).(IfaceV)
 		b := ex.coerce(yv, xt).(IfaceV)
-		e := And(Eq(a.Tag, b.Tag), Eq(a.Ref, b.Ref))
+		// Interface values are equal when their dynamic types are identical and the dynamic values are
+		// equal. Pointer-shaped dynamic values (even type ids) are the reference itself. Other dynamic
+		// values live in a box: when one operand is a conversion of a scalar right here (v == "x") the
+		// contents are compared; otherwise equal boxes are equal and distinct boxes are undetermined.
+		var e Term
+		if t := scalarMakeIface(instr); t != nil {
+			ca, cb := ex.unbox(st, a, t), ex.unbox(st, b, t)
+			e = And(Eq(a.Tag, b.Tag), Eq(a.Tag, IntT(int64(ex.ctx.typeID(t)))), ex.binop(st, token.EQL, ca, cb, t, rt, instr).(Term))
+		} else if isNilIface(a) || isNilIface(b) {
+			e = And(Eq(a.Tag, b.Tag), Eq(a.Ref, b.Ref))
+		} else {
+			u := App(SBool, ex.D.Fun("boxeq", []string{SInt, SInt, SInt}, SBool), a.Tag, a.Ref, b.Ref)
+			e = And(Eq(a.Tag, b.Tag), Or(Eq(a.Ref, b.Ref), And(Eq(App(SInt, "mod", a.Tag, IntT(2)), IntT(1)), u)))
+		}
 		if op == token.EQL {
 			return e
 		}
@@ -785,6 +798,29 @@ func (ex *Exec) binop(st *State, op token.Token, xv, yv Val, xt, rt types.Type, 
 	}
 	ex.unsupported("binary operator %s on %s", op, xt)
 	return ex.symbolic(st, "binop", rt)
+}
+
+// scalarMakeIface: the comparison's operand that is a conversion of a string, integer, boolean or
+// float to an interface, if any.
+func scalarMakeIface(instr ssa.Instruction) types.Type {
+	b, ok := instr.(*ssa.BinOp)
+	if !ok {
+		return nil
+	}
+	for _, o := range []ssa.Value{b.X, b.Y} {
+		if mi, ok := o.(*ssa.MakeInterface); ok {
+			switch kindOf(mi.X.Type()) {
+			case KString, KInt, KBool, KFloat:
+				return mi.X.Type()
+			}
+		}
+	}
+	return nil
+}
+
+func isNilIface(v IfaceV) bool {
+	n, ok := v.Tag.numeral()
+	return ok && n.Sign() == 0
 }
 
 func (ex *Exec) structEq(a, b *StructV) Term {
@@ -1230,6 +1266,12 @@ func (ex *Exec) safetyProps() []string {
 
 // wrapMul64: the product of two 64-bit signed integers as the machine computes it (wrap-around).
 func wrapMul64(x, y Term) Term {
+	// the constant factor second: c*x and x*c are then the same term
+	if _, xn := x.numeral(); xn {
+		if _, yn := y.numeral(); !yn {
+			x, y = y, x
+		}
+	}
 	p := Mul(x, y)
 	lo, hi := BigT(new(big.Int).Neg(pow2(63))), BigT(pow2(63))
 	wrapped := Sub(App(SInt, "mod", Add(p, BigT(pow2(63))), BigT(pow2(64))), BigT(pow2(63)))
